@@ -23,8 +23,11 @@ Definition entry_ok (defs : newtypes) (e : conv_kind * string * string) : bool :
   let '(k, src, dst) := e in
   match type_range defs src, type_range defs dst, repr_range defs dst with
   | Some (slo, shi), Some (dlo, dhi), Some (rlo, rhi) =>
-      if is_try k then Z.eqb dlo 0 && Z.leb rlo 0 && Z.leb dhi rhi
-      else Z.leb dlo slo && Z.leb shi dhi && Z.leb rlo slo && Z.leb shi rhi
+      match k with
+      | TryNN | TryPN => Z.eqb dlo 0 && Z.leb rlo 0 && Z.leb dhi rhi
+      | TrySPN => Z.eqb dlo 0 && Z.leb rlo 0 && Z.leb shi dhi && Z.leb shi rhi
+      | _ => Z.leb dlo slo && Z.leb shi dhi && Z.leb rlo slo && Z.leb shi rhi
+      end
   | _, _, _ => false
   end.
 
@@ -44,19 +47,41 @@ Proof.
   destruct (repr_range defs dst) as [[rlo rhi]|]; [|discriminate].
   exists dlo, dhi. split; [reflexivity|].
   apply andb_true_iff in Hx as [Hx1 Hx2]. apply Z.leb_le in Hx1, Hx2.
-  destruct (is_try k) eqn:Ek.
-  - apply andb_true_iff in Hok as [Hok H3]. apply andb_true_iff in Hok as [H1 H2].
+  destruct k; cbn [is_try andb negb] in *.
+  - (* FromNN *)
+    apply andb_true_iff in Hok as [Hok H4]. apply andb_true_iff in Hok as [Hok H3].
+    apply andb_true_iff in Hok as [H1 H2]. apply Z.leb_le in H1, H2, H3, H4.
+    split; [|intros _; lia]. rewrite wrap_id by lia. reflexivity.
+  - (* FromNP *)
+    apply andb_true_iff in Hok as [Hok H4]. apply andb_true_iff in Hok as [Hok H3].
+    apply andb_true_iff in Hok as [H1 H2]. apply Z.leb_le in H1, H2, H3, H4.
+    split; [|intros _; lia]. rewrite wrap_id by lia. reflexivity.
+  - (* FromPN *)
+    apply andb_true_iff in Hok as [Hok H4]. apply andb_true_iff in Hok as [Hok H3].
+    apply andb_true_iff in Hok as [H1 H2]. apply Z.leb_le in H1, H2, H3, H4.
+    split; [|intros _; lia]. rewrite wrap_id by lia. reflexivity.
+  - (* TryNN *)
+    apply andb_true_iff in Hok as [Hok H3]. apply andb_true_iff in Hok as [H1 H2].
     apply Z.eqb_eq in H1. apply Z.leb_le in H2, H3. subst dlo.
     destruct (Z.leb 0 x && Z.leb x dhi) eqn:Er; cbn [andb negb].
     + apply andb_true_iff in Er as [R1 R2]. apply Z.leb_le in R1, R2.
-      split; [|intros _; lia].
-      destruct k; try discriminate; rewrite wrap_id by lia; reflexivity.
-    + split; [|discriminate]. destruct k; try discriminate; reflexivity.
-  - cbn [andb].
+      split; [|intros _; lia]. rewrite wrap_id by lia. reflexivity.
+    + split; [reflexivity|discriminate].
+  - (* TryPN *)
+    apply andb_true_iff in Hok as [Hok H3]. apply andb_true_iff in Hok as [H1 H2].
+    apply Z.eqb_eq in H1. apply Z.leb_le in H2, H3. subst dlo.
+    destruct (Z.leb 0 x && Z.leb x dhi) eqn:Er; cbn [andb negb].
+    + apply andb_true_iff in Er as [R1 R2]. apply Z.leb_le in R1, R2.
+      split; [|intros _; lia]. rewrite wrap_id by lia. reflexivity.
+    + split; [reflexivity|discriminate].
+  - (* TrySPN: only negatives are rejected; the source's non-negative range fits *)
     apply andb_true_iff in Hok as [Hok H4]. apply andb_true_iff in Hok as [Hok H3].
-    apply andb_true_iff in Hok as [H1 H2]. apply Z.leb_le in H1, H2, H3, H4.
-    split; [|intros _; lia].
-    destruct k; try discriminate; rewrite wrap_id by lia; reflexivity.
+    apply andb_true_iff in Hok as [H1 H2].
+    apply Z.eqb_eq in H1. apply Z.leb_le in H2, H3, H4. subst dlo.
+    destruct (Z.leb_spec 0 x) as [R1|R1].
+    + destruct (Z.leb_spec x dhi) as [R2|R2]; [|lia]. cbn [andb negb].
+      split; [|intros _; lia]. rewrite wrap_id by lia. reflexivity.
+    + cbn [andb negb]. split; [reflexivity|discriminate].
 Qed.
 
 (** the checked constructor: when the assertion is compiled in, it panics exactly for
